@@ -214,6 +214,12 @@ func (l *Lexer) readDigit(tok *token.Token) {
 
 	if isFloat {
 		l.readRune()
+		if hasExponent {
+			// IntegerPart ExponentPart: the exponent indicator may be followed by a sign (1e-5, 1E+5)
+			if sign := l.peekRune(false); sign == runes.SUB || sign == runes.ADD {
+				l.readRune()
+			}
+		}
 		l.readFloat(hasExponent, tok)
 		return
 	}
